@@ -128,7 +128,41 @@ var c10Disturbers = []string{
 	"{ printf('%s=%s;', $.b, $.zz) }",
 }
 
+// literalFamily: programs whose output depends on the CONTENT of every literal at a fixed set of source positions
+// (regex, string and number literals of equal length are drawn from small pools).
+func literalFamily(rng *rand.Rand) poolCase {
+	res := []string{"^a", "b$", "ab", "^b", "a$", "ba", "c+", "^c", "a.", ".b"}
+	strs := []string{"ab", "ba", "ca", "bc", "aa", "cb"}
+	re := func() string { return "/" + res[rng.IntN(len(res))] + "/" }
+	st := func() string { return "'" + strs[rng.IntN(len(strs))] + "'" }
+	num := func() string { return strconv.Itoa(1 + rng.IntN(8)) }
+	var sb strings.Builder
+	fmt.Fprintf(&sb, "$.s ~ %s { print 'rule', $.s }\n", re())
+	fmt.Fprintf(&sb, "{ print $.s ~ %s, $.t !~ %s, $.s == %s, $.n > %s, $.s + %s, $.n * %s }\n", re(), re(), st(), num(), st(), num())
+	fmt.Fprintf(&sb, "{ print match ($.s) { %s => 'first', %s => 'second', other => other ~ %s } }\n", st(), st(), re())
+	if rng.IntN(2) == 0 {
+		fmt.Fprintf(&sb, "function f(v) { return v ~ %s } { print f($.s), f($.t), f(%s) }\n", re(), st())
+	}
+	fmt.Fprintf(&sb, "END { printf('%%s %%5s|\\n', %s, %s); print %s.length() + %s }", st(), st(), st(), num())
+	var sels []string
+	if rng.IntN(2) == 0 {
+		sels = []string{fmt.Sprintf("match ($.s ~ %s) { true => $, other => { s: %s, t: %s, n: %s } }", re(), st(), st(), num())}
+	}
+	var in strings.Builder
+	for i := 3 + rng.IntN(4); i > 0; i-- {
+		fmt.Fprintf(&in, "{\"s\": \"%s\", \"t\": \"%s\", \"n\": %d}\n", strs[rng.IntN(len(strs))], strs[rng.IntN(len(strs))], rng.IntN(9))
+	}
+	if rng.IntN(3) == 0 {
+		// a damaged tail: the values before it are processed, then the run fails - identically every time
+		in.WriteString([]string{"]", "{\"s\": ", "} {", "nul"}[rng.IntN(4)])
+	}
+	return poolCase{prog: sb.String(), sels: sels, input: []byte(in.String()), kind: "literal-content", multi: true}
+}
+
 func c10Pool(rng *rand.Rand) poolCase {
+	if rng.IntN(10) == 0 {
+		return literalFamily(rng)
+	}
 	switch rng.IntN(12) {
 	case 0, 1, 2, 3:
 		return objectFamily(rng)
@@ -182,6 +216,64 @@ func c10RunOnce(pc poolCase) (c10Sig, bool) {
 		return c10Sig{}, false
 	}
 	return c10Sig{class: o.Class, stdout: string(o.Stdout), root: o.RootJSON + "|" + o.RootErr}, true
+}
+
+// siblingText returns a program of identical layout in which every string, regex and number literal has other
+// content of the same length: whatever an implementation remembers per source position (rather than per
+// content) from a run of the sibling is wrong for the original.
+func siblingText(src string) string {
+	b := []byte(src)
+	rot := func(ch byte) byte {
+		switch {
+		case ch >= 'a' && ch < 'z', ch >= 'A' && ch < 'Z', ch >= '0' && ch < '9':
+			return ch + 1
+		case ch == 'z':
+			return 'a'
+		case ch == 'Z':
+			return 'A'
+		case ch == '9':
+			return '1'
+		}
+		return ch
+	}
+	prevSig := byte(0) // last significant byte outside literals
+	for i := 0; i < len(b); i++ {
+		ch := b[i]
+		switch {
+		case ch == '\'' || ch == '"':
+			for i++; i < len(b) && b[i] != ch; i++ {
+				if b[i] == '\\' {
+					i++
+					continue
+				}
+				if i > 0 && b[i-1] == '%' {
+					continue // keep printf directives
+				}
+				b[i] = rot(b[i])
+			}
+			prevSig = ch
+		case ch == '/' && (prevSig == '~' || prevSig == '(' || prevSig == ',' || prevSig == '=' || prevSig == '{' || prevSig == 0 || prevSig == '&' || prevSig == '|' || prevSig == '!'):
+			for i++; i < len(b) && b[i] != '/'; i++ {
+				if b[i] == '\\' {
+					i++
+					continue
+				}
+				b[i] = rot(b[i])
+			}
+			prevSig = '/'
+		case ch == '#':
+			for i < len(b) && b[i] != '\n' {
+				i++
+			}
+		case ch >= '0' && ch <= '9' && !(prevSig >= 'a' && prevSig <= 'z') && !(prevSig >= 'A' && prevSig <= 'Z') && prevSig != '_' && prevSig != '$':
+			b[i] = rot(ch)
+			prevSig = '0'
+		case ch == ' ' || ch == '\t' || ch == '\n' || ch == '\r':
+		default:
+			prevSig = ch
+		}
+	}
+	return string(b)
 }
 
 func sigDiff(a, b c10Sig) string {
@@ -254,6 +346,31 @@ func c10Run(c *Case) {
 			return
 		}
 	}
+	// after a run of the position-preserving sibling (same layout, other literal contents)
+	{
+		sib := pc
+		sib.prog = siblingText(pc.prog)
+		sib.sels = nil
+		for _, sel := range pc.sels {
+			sib.sels = append(sib.sels, siblingText(sel))
+		}
+		if sib.prog != pc.prog || strings.Join(sib.sels, "|") != strings.Join(pc.sels, "|") {
+			c10RunOnce(sib)
+			got, ok := c10RunOnce(pc)
+			if !ok {
+				c.Inconclusive("budget")
+				return
+			}
+			c.Count("executions_compared")
+			c.Count("after_position_preserving_sibling")
+			if d := sigDiff(ref, got); d != "" {
+				rp["sibling_program"] = sib.prog
+				rp["sibling_selectors"] = sib.sels
+				c.Violation(fmt.Sprintf("the same run gives a different result after a program of the same layout with other literals ran in the same process: %s | program: %s", d, clip(pc.prog, 200)), nil, rp)
+				return
+			}
+		}
+	}
 	c.Held()
 	// fresh processes
 	if c.Idx%4 == 0 && !strings.ContainsRune(pc.prog, 0) {
@@ -301,7 +418,7 @@ func c10Run(c *Case) {
 func init() {
 	register(&Prop{
 		ID: "C10", Level: "exploration",
-		Rule: "metamorphic: a case (program, selectors, input) drawn from a pool (object family: print / printf %v / for-in / json() / key collection+sort / pluck over objects with 2-16 keys from literals and from the input; whole-grammar programs; structured, function, assignment-history, match programs; document printing; selectors; 12 'disturber' programs that assign to method names, fail inside calls, hit limits, build cycles) is executed in-process 8 times back to back, 3 more times each after 1-3 unrelated pool/disturber runs in the same process, and (every 4th case) in 4 fresh processes of the binary with -o -; stdout, JSON output (or its error) and outcome class must be byte-identical across all of them. Non-trivial = the case touches an object with >= 2 keys or a prototype method; distinct by program+input+selectors. Go randomises map iteration per range statement, so an order-dependent output over n >= 3 keys repeats 11 times by chance with probability < 1e-8.",
+		Rule: "metamorphic: a case (program, selectors, input) drawn from a pool (object family: print / printf %v / for-in / json() / key collection+sort / pluck over objects with 2-16 keys from literals and from the input; whole-grammar programs; a literal-content family whose output depends on every regex / string / number literal at fixed source positions, in rules, functions, match cases and selectors; structured, function, assignment-history, match programs; document printing; selectors; 12 'disturber' programs that assign to method names, fail inside calls, hit limits, build cycles) is executed in-process 8 times back to back, 3 more times each after 1-3 unrelated pool/disturber runs in the same process, once more after its position-preserving sibling (same layout, every string / regex / number literal replaced by other content of the same length, in program and selectors), and (every 4th case) in 4 fresh processes of the binary with -o -; stdout, JSON output (or its error) and outcome class must be byte-identical across all of them. Non-trivial = the case touches an object with >= 2 keys or a prototype method; distinct by program+input+selectors. Go randomises map iteration per range statement, so an order-dependent output over n >= 3 keys repeats 11 times by chance with probability < 1e-8.",
 		NumCases: func(tier string) int {
 			if tier == "thorough" {
 				return 60000
